@@ -360,6 +360,8 @@ def shards(tier):
     for a, b in pairs:
         nb = len(set(CONFIGS[a][2] + CONFIGS[b][2]))
         for bidx in range(nb):
+            if tier == 'quick' and (a, b, bidx) in (('plain', 'usec', 1), ('plain', 'usec', 2)):
+                continue        # thorough only (the sub-millisecond neighbourhood is covered by nothing->near-hour)
             out.append({'name': f'reconfig {a}->{b} boundary={bidx}', 'scenario': 'scen_reconfig',
                         'params': {'cfg': a, 'newcfg': b, 'base': 'mid', 'bidx': bidx,
                                    'span_s': 1 if tier == 'quick' else 2, 'gmax': 2 if tier == 'quick' else 3}, 'cost': 40})
